@@ -22,6 +22,19 @@ _MODE_TABLE: dict[str, Literal["rb", "wb", "ab", "r+b", "w+b", "a+b"]] = {
 }
 
 
+def _translate_io_error(
+    metadata: AS.Metadata, err: OSError | ValueError | OverflowError
+) -> AS.UnsuspectedHangeulError:
+    """Converts a host error raised while executing a file operation."""
+    if isinstance(err, OSError) and err.errno is not None:
+        return error.UnsuspectedHangeulOSError(
+            metadata, f"운영체제 오류 errno={err.errno}", err.errno
+        )
+    return error.UnsuspectedHangeulValueError(
+        metadata, f"파일에 수행할 수 없는 연산입니다: {err}"
+    )
+
+
 class File(AS.Function):
     def __init__(self, file: BinaryIO):
         super().__init__("파일 접근 ")
@@ -59,7 +72,10 @@ class File(AS.Function):
 
         def _fn(do_IO: DoIO) -> AS.EvalContext:
             del do_IO  # Unused
-            self._file.close()
+            try:
+                self._file.close()
+            except (OSError, ValueError) as err:
+                raise _translate_io_error(metadata, err) from None
             return AS.Nil()
             yield
 
@@ -76,7 +92,10 @@ class File(AS.Function):
 
         def _fn(do_IO: DoIO) -> AS.EvalContext:
             del do_IO  # Unused
-            content = self._file.read(count.value)  # -1 for all
+            try:
+                content = self._file.read(count.value)  # -1 for all
+            except (OSError, ValueError, OverflowError) as err:
+                raise _translate_io_error(metadata, err) from None
             return AS.Bytes(content)
             yield
 
@@ -92,7 +111,10 @@ class File(AS.Function):
 
         def _fn(do_IO: DoIO) -> AS.EvalContext:
             del do_IO  # Unused
-            count = self._file.write(content.value)
+            try:
+                count = self._file.write(content.value)
+            except (OSError, ValueError) as err:
+                raise _translate_io_error(metadata, err) from None
             return AS.Integer(count)
             yield
 
@@ -106,7 +128,10 @@ class File(AS.Function):
 
             def _fn(do_IO: DoIO) -> AS.EvalContext:
                 del do_IO  # Unused
-                pos = self._file.tell()
+                try:
+                    pos = self._file.tell()
+                except (OSError, ValueError) as err:
+                    raise _translate_io_error(metadata, err) from None
                 return AS.Integer(pos)
                 yield
 
@@ -134,7 +159,10 @@ class File(AS.Function):
 
         def _fn(do_IO: DoIO) -> AS.EvalContext:
             del do_IO  # Unused
-            pos = self._file.seek(offset.value, whence)
+            try:
+                pos = self._file.seek(offset.value, whence)
+            except (OSError, ValueError, OverflowError) as err:
+                raise _translate_io_error(metadata, err) from None
             return AS.Integer(pos)
             yield
 
@@ -149,7 +177,12 @@ class File(AS.Function):
 
         def _fn(do_IO: DoIO) -> AS.EvalContext:
             del do_IO  # Unused
-            new_size = self._file.truncate(*[arg.value for arg in _argv[:-1]])
+            try:
+                new_size = self._file.truncate(
+                    *[arg.value for arg in _argv[:-1]]
+                )
+            except (OSError, ValueError, OverflowError) as err:
+                raise _translate_io_error(metadata, err) from None
             return AS.Integer(new_size)
             yield
 
@@ -233,10 +266,8 @@ def _file(metadata: AS.Metadata, argv: Sequence[AS.Value]) -> EvalIOContext:
             if (path_or_fd.value, _mode) == (2, "wb"):
                 return File(sys.stderr.buffer)
             return File(open(path_or_fd.value, _mode))
-        except OSError as err:
-            raise error.UnsuspectedHangeulOSError(
-                metadata, f"운영체제 오류 errno={err.errno}", err.errno
-            ) from err
+        except (OSError, ValueError, OverflowError) as err:
+            raise _translate_io_error(metadata, err) from err
         yield
 
     return AS.IO("ㄱㄴ", (path_or_fd, mode), _fn)
